@@ -1,2 +1,23 @@
-(** C08 *)
-From Coq Require Import List.
+(** C08 — generated parsers always terminate and never panic.
+    This file: the table-driven parser never reaches a panic site on validated tables
+    (index out of bounds, unwrap on None, subtraction underflow, "symbol type mismatch", the
+    explicit panic!s).  Termination bounds: see LR/Termination.v when present. *)
+From Coq Require Import List ZArith.
+From LV Require Import LR.Driver LR.Validator LR.Safety LR.Soundness LR.NoPanic LR.Main.
+Import ListNotations.
+
+Theorem C08_parser_never_panics : forall A C,
+  shape A C = true -> exact A C = true -> uses_recovery A = false ->
+  forall orc fuel w r s,
+  Forall (fun k => match tk_idx k with Some t => t < tn_names A | None => True end) w ->
+  drive A orc fuel (map IOk w) = (r, s) -> r <> RPanic.
+Proof. exact no_panic. Qed.
+Print Assumptions C08_parser_never_panics.
+
+(* the simulation behind expected-token lists and recovery ([accepts]) never panics either, on any
+   stack the parser can have built *)
+Theorem C08_accepts_never_panics : forall A C,
+  shape A C = true -> exact A C = true ->
+  forall fuel l a, SLinked A C l -> la_ok A a -> accepts A fuel l a <> APanic.
+Proof. exact accepts_no_panic. Qed.
+Print Assumptions C08_accepts_never_panics.
